@@ -228,19 +228,18 @@ Definition dec_pred (x : sx) : option (option (stat -> bool)) :=
   end.
 
 (* ReceiveOpt.Filter: () = nil, ((path ...) uidadd gidadd): the filter answers false for the listed
-   paths and everything below them, and adds the two numbers to uid and gid of what it lets pass *)
-Definition below_any (ps : list bytes) (p : bytes) : bool :=
-  existsb (fun q => bytes_eqb q p || has_prefix (q ++ [sep]) p) ps.
+   paths and everything below them, and adds the two numbers to uid and gid of what it lets pass
+   ([subtree_filter]); with a fourth element: for the listed paths only ([exact_filter], replay of
+   the witness of receiver_contained_any_filter_refuted; never generated) *)
 Definition dec_filter (x : sx) : option (option rfilter) :=
   match x with
   | SL [] => Some None
   | SL [SL ps; SN ua; SN ga] =>
     l <- omap (fun y => match y with SB p => Some p | _ => None end) ps ;;
-    Some (Some {| f_rej := below_any l;
-                  f_map := fun s => {| st_path := st_path s; st_mode := st_mode s; st_uid := N.land (st_uid s + ua) 4294967295;
-                                       st_gid := N.land (st_gid s + ga) 4294967295; st_size := st_size s; st_mtime := st_mtime s;
-                                       st_linkname := st_linkname s; st_devmajor := st_devmajor s; st_devminor := st_devminor s;
-                                       st_xattrs := st_xattrs s |} |})
+    Some (Some (subtree_filter l ua ga))
+  | SL [SL ps; SN ua; SN ga; _] =>
+    l <- omap (fun y => match y with SB p => Some p | _ => None end) ps ;;
+    Some (Some (exact_filter l ua ga))
   | _ => None
   end.
 
